@@ -52,6 +52,14 @@ def gen_case(r, cid, tier):
                 {'op': 'new', 'i': 1, 'all': False}, {'op': 'addconn', 'i': 1, 'proto': p, 'ps': {'all': False, 'ranges': [], 'named': [nm]}},
                 {'op': 'sub', 'i': 0, 'j': 1}, {'op': 'union', 'i': 0, 'j': 1}, {'op': 'isall', 'i': 0}, {'op': 'string', 'i': 0}]
         fresh.update([0, 1])
+    if r.random() < 0.15:
+        # two sets that differ only in the NAME of their one named port are different sets
+        p = r.choice(PROTOS)
+        n1, n2 = r.sample(NAMES, 2)
+        ops += [{'op': 'new', 'i': 0, 'all': False}, {'op': 'addconn', 'i': 0, 'proto': p, 'ps': {'all': False, 'ranges': [[80, 80]], 'named': [n1]}},
+                {'op': 'new', 'i': 1, 'all': False}, {'op': 'addconn', 'i': 1, 'proto': p, 'ps': {'all': False, 'ranges': [[80, 80]], 'named': [n2]}},
+                {'op': 'equal', 'i': 0, 'j': 1}, {'op': 'containedin', 'i': 0, 'j': 1}, {'op': 'containedin', 'i': 1, 'j': 0}]
+        fresh.update([0, 1])
     if r.random() < 0.2:
         # aliasing: the full set intersected with a set must not share that set's port sets - updating the result afterwards must
         # leave the operand alone (the whole pool is compared after every step)
